@@ -12,6 +12,7 @@ from mc import payload as P
 from mc.termcheck import short
 
 PROPERTY = "C09"
+PAYLOAD_SEEDS = {"thorough": [0, 1, 2, 3]}  # the thorough tier repeats the whole enumeration for four payload seeds
 ASSUMPTIONS = [
     "operators are diagonalisable with well-conditioned eigenvectors (cond(V) <= 10) and spectrum inside the function's domain "
     "(open right half plane for log / sqrt / fractional powers; singular PSD only for exp)",
